@@ -204,10 +204,13 @@ impl Directive {
                     _ => SegmentType::Code,
                 };
 
-                if !context.last_segment().unwrap().borrow().is_empty() {
+                let last_segment = context.last_segment().unwrap();
+                // a segment positioned by .org keeps its own type and location counter
+                let occupied = !last_segment.borrow().is_empty() || last_segment.borrow().address != 0;
+                if occupied {
                     context.add_segment(Segment::new(new_type));
                 } else {
-                    context.last_segment().unwrap().borrow_mut().t = new_type;
+                    last_segment.borrow_mut().t = new_type;
                 }
             }
             Directive::Device => {
